@@ -54,7 +54,7 @@ func checkC17(r *Report, known []Finding) {
 		"ExtractInner(ForReverseSearch) are checked by the verified Lean checker (Cx.LitCheck.checkPrefix/Suffix/Inner: product of the dumped NFA with the literal automaton; `ok` is a proof for ALL " +
 		"matches in ALL haystacks); a failing check yields a witness string that is validated against regexp (`^(?:p)$` matches it and no literal is a prefix/suffix/infix) before it counts; " +
 		"complete literals must themselves match; non-trivial = the sequence is non-empty; distinct by (pattern, limits, kind)"
-	np := 220
+	np := 300
 	if r.Tier == "thorough" {
 		np = 3000
 	}
@@ -75,11 +75,34 @@ func checkC17(r *Report, known []Finding) {
 			cfgs = append(cfgs, c)
 		}
 	}
+	// the configuration the meta engine uses (meta/compile.go: MaxLiterals from meta.Config, default 256; cross-product limit left at its default)
+	metaCfg := literal.ExtractorConfig{MaxLiterals: 256, MaxLiteralLen: 64, MaxClassSize: 10}
+	cfgs = append(cfgs, metaCfg)
+	// fixed families aimed at the limits and at case folding: alternations whose literal count crosses MaxLiterals (64) and the
+	// cross-product limit (250) inside a multi-literal branch, and case-folded literals over every ASCII letter (k and s fold to
+	// U+212A and U+017F)
+	var fixed []string
+	for _, k := range []int{61, 63, 64, 247, 249, 250, 252} {
+		var alts []string
+		for j := 0; j < k; j++ {
+			alts = append(alts, fmt.Sprintf("w%03d", j))
+		}
+		fixed = append(fixed, strings.Join(alts, "|")+"|[xyz]foo|bar", strings.Join(alts, "|")+"|q[0-4]r[5-9]|bar", "(?:"+strings.Join(alts, "|")+"|[xyz]foo)tail")
+	}
+	for c := 'a'; c <= 'z'; c++ {
+		if c%3 == 0 || c == 'k' || c == 's' {
+			fixed = append(fixed, fmt.Sprintf("(?i)%cq7", c), fmt.Sprintf(".*(?i:x%c)", c), fmt.Sprintf("(?i:a%cy)[0-9]+", c))
+		}
+	}
+	fixed = append(fixed, `(?i)sky`, `(?i)kelvin scale`, `(?i:ask)[0-9]+`, `.*(?i:desk)`, `(?i)straße|maße`)
 	tcomp := r.Tie("complete literals are themselves matches (regexp)")
 	deadline := time.Now().Add(8 * time.Minute)
 	for i := 0; i < np && time.Now().Before(deadline); i++ {
 		rng := root.Fork(uint64(i) + 1)
 		p := patternSource(rng, i, GenOpts{MaxDepth: 3})
+		if i < len(fixed) {
+			p = fixed[i]
+		}
 		ast, err := syntax.Parse(p, syntax.Perl)
 		if err != nil {
 			continue
@@ -103,6 +126,9 @@ func checkC17(r *Report, known []Finding) {
 		}
 		for ci := 0; ci < ncfg; ci++ {
 			cfg := cfgs[ci]
+			if i < len(fixed) && ci == 0 {
+				cfg = metaCfg // the fixed families always run under the meta engine's limits (and under the others when i%3 == 0)
+			}
 			cfgName := fmt.Sprintf("MaxLiterals=%d,MaxLiteralLen=%d,MaxClassSize=%d", cfg.MaxLiterals, cfg.MaxLiteralLen, cfg.MaxClassSize)
 			var pre, suf, inn *literal.Seq
 			var innR *literal.InnerLiteralInfo
